@@ -103,6 +103,161 @@ def run(P, rep, tier):
     rep.exempt('C15.OWN', 'EB_MALLOC_DEC family (%d fields)' % ndecmap, 'registered in svt_dec_memory_map and released by the list walk in svt_av1_dec_deinit')
     rep.floor('C15.OWN', 250)
 
+    # ---------------- COUNT: a member whose cells are allocated in a loop must be released by a loop that covers as many cells.
+    # Bounds are compared after canonical expansion: single-definition locals are replaced by their defining expression,
+    # constructor parameters keep their name, and object fields are replaced by the expression the (single) init-time store
+    # gave them - so `obj->sb_size == MAX_SB_SIZE ? A : B` in the destructor and `sb_size == MAX_SB_SIZE ? A : B` in the
+    # constructor (with `obj->sb_size = sb_size`) are the same bound, whatever the locals are called.
+    def loopsig(f, ev, tgt):
+        subs = set()
+        for x in subexprs(tgt):
+            if x[0] == 'i':
+                for y in subexprs(x[2]):
+                    if y[0] == 'v':
+                        subs.add(y[1])
+        out = []
+        for kind, cond, line in f.ctl_chain(ev):
+            if kind in ('for', 'while') and cond is not None:
+                for y in subexprs(strip(cond)):
+                    if y[0] == 'b' and y[1] in ('<', '<=') and strip(y[2])[0] == 'v' and strip(y[2])[1] in subs:
+                        out.append((y[1], strip(y[3])))
+        return out
+
+    _ld = {}
+
+    def local_defs(f):
+        if f.key in _ld:
+            return _ld[f.key]
+        d = {}
+        for ev in f.events(('decl', 'st')):
+            e = ev.get('e')
+            if ev['k'] == 'decl':
+                d.setdefault(ev['n'], []).append(e)
+            elif e and e[0] in ('a', 'u'):
+                t = strip(e[2])
+                if t and t[0] == 'v' and t[2] == 'l':
+                    d.setdefault(t[1], []).append(e[3] if e[0] == 'a' and e[1] == '=' else 'step')
+        r = {k: v[0] for k, v in d.items() if len(v) == 1 and v[0] is not None and v[0] != 'step'}
+        _ld[f.key] = r
+        return r
+    # init-time single stores to object fields
+    fstore = {}
+    for f in live:
+        if not C.single_threaded(f):
+            continue
+        for ev in f.events(('st',)):
+            e = ev['e']
+            if e[0] in ('a', 'u'):
+                t = strip(e[2])
+                if t and t[0] == 'm':
+                    fstore.setdefault(t[1], []).append((f, e[3] if e[0] == 'a' and e[1] == '=' else None))
+    for f in live:
+        if C.single_threaded(f):
+            continue
+        for ev in f.events(('st',)):
+            e = ev['e']
+            t = strip(e[2]) if e[0] in ('a', 'u') else None
+            if t and t[0] == 'm' and t[1] in fstore:
+                fstore[t[1]].append((f, None))          # also written at run time: not a constant of the object
+
+    def norm(f, e, depth=0, seen=()):
+        """canonical, Python-evaluable spelling; inputs appear as v['...']"""
+        e = strip(e)
+        if e is None or depth > 10:
+            return '?'
+        k = e[0]
+        if k == 'l':
+            return str(e[1])
+        if k == 'v':
+            ld = local_defs(f)
+            if e[2] == 'l' and e[1] in ld:
+                return norm(f, ld[e[1]], depth + 1, seen)
+            return "v['param:%s:%s']" % (f.name, e[1]) if e[2].startswith('p') else 'free:' + e[1]
+        if k == 'm':
+            ss = fstore.get(e[1], [])
+            if len(ss) == 1 and ss[0][1] is not None and e[1] not in seen:
+                return norm(ss[0][0], ss[0][1], depth + 1, seen + (e[1],))
+            return "v['.%s']" % e[1]
+        if k == 'b':
+            op = {'/': '//', '&&': ' and ', '||': ' or '}.get(e[1], e[1])
+            return '(%s %s %s)' % (norm(f, e[2], depth + 1, seen), op, norm(f, e[3], depth + 1, seen))
+        if k == 'q':
+            return '(%s if %s else %s)' % (norm(f, e[2], depth + 1, seen), norm(f, e[1], depth + 1, seen), norm(f, e[3], depth + 1, seen))
+        if k == 'u' and e[1] in ('-', '+', '!'):
+            return ('(not %s)' if e[1] == '!' else '(' + e[1] + '%s)') % norm(f, e[2], depth + 1, seen)
+        return '?' + k
+
+    def bound(f, op, b):
+        n = norm(f, b)
+        if op == '<=':
+            n = str(int(n) + 1) if n.lstrip('-').isdigit() else '(%s + 1)' % n
+        return n
+
+    import re as _re, itertools as _it
+
+    def covers(rb, ab):
+        """'yes' / 'no: witness' / None (not comparable) for: some release bound in rb >= allocation bound ab on every input"""
+        opaque = lambda x: 'free:' in x or '?' in x
+        if opaque(ab):
+            return None
+        if ab in rb:
+            return 'yes'
+        leaves = lambda x: set(_re.findall(r"v\['([^']+)'\]", x))
+        la_ = leaves(ab)
+        cands = [r for r in rb if not opaque(r) and leaves(r) == la_]
+        if not cands:
+            return None
+        lits = sorted({int(x) for r in cands + [ab] for x in _re.findall(r'(?<![\w\]])-?\d+', r)})
+        dom = sorted({y for x in lits for y in (x - 1, x, x + 1) if y >= 0} | {0, 1})[:24]
+        names = sorted(la_)
+        if len(dom) ** len(names) > 200000:
+            return None
+        for vals in _it.product(dom, repeat=len(names)):
+            v = dict(zip(names, vals))
+            try:
+                av = int(eval(ab, {'v': v}))
+                if not any(int(eval(r, {'v': v})) >= av for r in cands):
+                    return 'no: for %s the allocation loop runs to %d but the release loops only to %s' % (
+                        ', '.join('%s=%d' % (n.split(':')[-1].lstrip('.'), x) for n, x in v.items()), av,
+                        '/'.join(str(int(eval(r, {'v': v}))) for r in cands))
+            except ZeroDivisionError:
+                continue
+            except Exception:
+                return None
+        return 'yes'
+    la, lr = {}, {}
+    for f in live:
+        if f.lib == 'Decoder':
+            continue
+        for ev, lf, kind, lvl, mac, t in alloc_sites(f):
+            if lf and C.single_threaded(f):
+                for op, b in loopsig(f, ev, t):
+                    la.setdefault(lf, []).append((f, ev, bound(f, op, b)))
+        for ev, lf, kind, lvl, mac, t in release_sites(f):
+            if lf and f in C.deinit:
+                for op, b in loopsig(f, ev, t):
+                    lr.setdefault(lf, []).append((f, ev, bound(f, op, b)))
+    ncount = 0
+    for lf in sorted(la):
+        if lf not in lr:
+            continue
+        rb = sorted({b for _, _, b in lr[lf]})
+        seenb = set()
+        for f, ev, b in la[lf]:
+            if b in seenb:
+                continue
+            seenb.add(b)
+            verdict = covers(rb, b)
+            if verdict is None:
+                rep.note('loop bounds of %s not comparable (%s vs %s)' % (lf, b[:70], rb[:2]))
+                continue
+            ok = verdict == 'yes'
+            ncount += 1
+            rep.ob('C15.COUNT', '%s/%s' % (lf, f.name), ok, f.loc(ev),
+                   ('cells allocated for index < %s; released for index < %s' % (b[:120], ' / '.join(rb)[:200])) +
+                   ('' if ok else ' - the release loops do not cover the allocation loop (%s): the remaining cells are never freed' % verdict[4:]))
+    rep.floor('C15.COUNT', 25)
+
     # ---------------- SHUT
     consumers = {}
     for f in live:
